@@ -484,6 +484,10 @@ pub proof fn lemma_write_through_top_value<T: BasicDataCustom>(v: Seq<BasicData<
     }
 }
 
+// <[T]>::reverse (assumed; std): the elements in opposite order
+pub assume_specification<T> [<[T]>::reverse] (s: &mut [T])
+    ensures final(s)@ == old(s)@.reverse();
+
 /// a cell that is bookkeeping only (no Garnish value lives there)
 pub open spec fn is_bookkeeping<T: BasicDataCustom>(d: BasicData<T>) -> bool { basic_type_of(d) == GarnishDataType::Invalid }
 
